@@ -13,6 +13,7 @@ package swarm
 
 import (
 	"context"
+	"os"
 	"crypto/rand"
 	"errors"
 	"fmt"
@@ -267,15 +268,79 @@ func (h *c12H) addr(code int64) ma.Multiaddr {
 	switch code % 4 {
 	case 0:
 		a = ma.StringCast(fmt.Sprintf("/ip4/1.2.3.4/tcp/%d", 4000+id))
+		if id == 5 || id == 6 {
+			// handed to the peerstore as a /dns4 name; the resolver maps it back
+			h.remember(a, code)
+			return ma.StringCast(fmt.Sprintf("/dns4/c12-host-%d/tcp/%d", id, 4000+id))
+		}
 	case 1:
 		a = ma.StringCast(fmt.Sprintf("/ip4/9.9.9.9/tcp/%d/p2p/%s/p2p-circuit", 4000+id, c12RelayID))
-	default:
+	case 2:
 		a = ma.StringCast(fmt.Sprintf("/ip4/1.2.3.4/sctp/%d", 4000+id))
+	default:
+		// /dnsaddr: what it resolves to is a fixed function of id (coq/c12/Model.v resolve_addr)
+		for _, rc := range c12Resolve(code) {
+			h.addr(rc)
+		}
+		return ma.StringCast(fmt.Sprintf("/dnsaddr/c12-dnsaddr-%d", id))
 	}
+	h.remember(a, code)
+	return a
+}
+
+func (h *c12H) remember(a ma.Multiaddr, code int64) {
 	h.mu.Lock()
 	h.codes[string(a.Bytes())] = code
 	h.mu.Unlock()
-	return a
+}
+
+// c12Resolve: the addresses a /dnsaddr address (class 3) resolves to
+func c12Resolve(code int64) []int64 {
+	i := code / 4
+	switch i % 3 {
+	case 0:
+		return []int64{4 * (i + 8)}
+	case 1:
+		return []int64{4*(i+8) + 1}
+	}
+	return []int64{4 * (i + 8), 4*(i+8) + 1}
+}
+
+// the swarm's DNS resolver (network.MultiaddrDNSResolver), scripted
+type c12Resolver struct{ h *c12H }
+
+func (r *c12Resolver) ResolveDNSAddr(_ context.Context, _ peer.ID, maddr ma.Multiaddr, _, _ int) ([]ma.Multiaddr, error) {
+	v, err := maddr.ValueForProtocol(ma.P_DNSADDR)
+	if err != nil {
+		return nil, err
+	}
+	var id int64
+	if _, err := fmt.Sscanf(v, "c12-dnsaddr-%d", &id); err != nil {
+		return nil, err
+	}
+	r.h.mu.Lock()
+	r.h.cov["resolve.dnsaddr"] = true
+	r.h.mu.Unlock()
+	var res []ma.Multiaddr
+	for _, rc := range c12Resolve(4*id + 3) {
+		res = append(res, r.h.addr(rc))
+	}
+	return res, nil
+}
+
+func (r *c12Resolver) ResolveDNSComponent(_ context.Context, maddr ma.Multiaddr, _ int) ([]ma.Multiaddr, error) {
+	v, err := maddr.ValueForProtocol(ma.P_DNS4)
+	if err != nil {
+		return nil, err
+	}
+	var id int64
+	if _, err := fmt.Sscanf(v, "c12-host-%d", &id); err != nil {
+		return nil, err
+	}
+	r.h.mu.Lock()
+	r.h.cov["resolve.dns4"] = true
+	r.h.mu.Unlock()
+	return []ma.Multiaddr{ma.StringCast(fmt.Sprintf("/ip4/1.2.3.4/tcp/%d", 4000+id))}, nil
 }
 
 func (h *c12H) addrCode(a ma.Multiaddr) (int64, bool) {
@@ -311,6 +376,7 @@ func newC12H(dialAttempts int64) *c12H {
 	s, err := NewSwarm(id, ps, eventbus.NewBus(),
 		WithDialTimeout(100000*time.Hour), WithDialTimeoutLocal(100000*time.Hour),
 		WithUDPBlackHoleSuccessCounter(nil), WithIPv6BlackHoleSuccessCounter(nil),
+		WithMultiaddrResolver(&c12Resolver{h: h}),
 		WithDialRanker(func(addrs []ma.Multiaddr) []network.AddrDelay {
 			res := make([]network.AddrDelay, 0, len(addrs))
 			for _, a := range addrs {
@@ -725,6 +791,8 @@ type c12Gen struct {
 	reaped map[int]bool
 	nodial map[int]bool
 	addrs  []int64
+	// no class-2 (no transport) addresses: the first block of cases
+	noUndialable bool
 }
 
 func (g *c12Gen) pickConnClass() (lim, proxy bool) {
@@ -750,15 +818,24 @@ func (g *c12Gen) randAddrs() {
 	var codes []int64
 	for i := 0; i < n; i++ {
 		cls := int64(0)
-		switch k := g.r.Intn(10); {
+		switch k := g.r.Intn(12); {
 		case k < 4:
 			cls = 0
-		case k < 8:
+		case k < 7:
 			cls = 1
-		default:
+		case k < 9:
 			cls = 2
+			if g.noUndialable {
+				cls = 3
+			}
+		default:
+			cls = 3 // /dnsaddr, resolving to a direct address, a relay address or both
 		}
-		codes = append(codes, 4*int64(g.r.Intn(5))+cls)
+		id := int64(g.r.Intn(5))
+		if cls == 0 && g.r.Chance(1, 4) {
+			id = 5 + int64(g.r.Intn(2)) // given as a /dns4 name
+		}
+		codes = append(codes, 4*id+cls)
 	}
 	g.addrs = codes
 	g.h.opAddrs(codes)
@@ -908,6 +985,54 @@ func (g *c12Gen) opening(kind int) {
 		if kind == 6 {
 			h.opAdd(false, false, true) // a direct connection that is gone before anybody can use it
 		}
+	case 7:
+		// an ordinary dial creates the address dials; a relayed connection appears; callers
+		// with other option sets join the pending dials; then the dials fail one by one
+		var codes []int64
+		nd := 1 + r.Intn(2)
+		for i := 0; i < nd; i++ {
+			codes = append(codes, 4*int64(i))
+		}
+		if r.Chance(1, 3) {
+			codes = append(codes, 4*int64(r.Intn(3))+3)
+		}
+		g.addrs = codes
+		h.opAddrs(codes)
+		g.startCall(r.Chance(3, 4), r.Intn(2)) // ordinary: no force, no nodial
+		h.opAdd(r.Chance(3, 4), true, false)    // the relayed (mostly limited) connection
+		k := 1 + r.Intn(3)
+		for i := 0; i < k; i++ {
+			opts := r.Intn(4)
+			if i == 0 {
+				opts |= 2
+			}
+			g.startCall(r.Chance(3, 4), opts)
+		}
+		for _, code := range codes {
+			if code%4 == 0 && r.Chance(4, 5) {
+				h.opDialRes(code, false, false)
+			}
+		}
+	case 8:
+		// force-direct and ordinary dials over /dnsaddr addresses resolving to relay / direct addresses
+		var codes []int64
+		n := 1 + r.Intn(3)
+		for i := 0; i < n; i++ {
+			codes = append(codes, 4*int64(r.Intn(5))+3)
+		}
+		if r.Chance(1, 3) {
+			codes = append(codes, 4*int64(r.Intn(7)))
+		}
+		g.addrs = codes
+		h.opAddrs(codes)
+		k := 1 + r.Intn(3)
+		for i := 0; i < k; i++ {
+			opts := r.Intn(4)
+			if i == 0 || r.Chance(1, 2) {
+				opts |= 2
+			}
+			g.startCall(r.Chance(3, 4), opts)
+		}
 	case 4, 5: // dials: force-direct and ordinary requests sharing one worker
 		if kind == 5 {
 			h.opAdd(r.Bool(), true, false) // an existing relayed connection
@@ -932,6 +1057,30 @@ func (g *c12Gen) opening(kind int) {
 	}
 }
 
+// every finished case is also appended, unbuffered, to $VERIF_OUT.live, so that
+// the cases survive a crash of the implementation under test (a panic in a swarm
+// goroutine cannot be recovered here)
+var c12Live *os.File
+
+func c12LiveCase(line []int64) {
+	if c12Live == nil {
+		f, err := os.OpenFile(os.Getenv("VERIF_OUT")+".live", os.O_CREATE|os.O_TRUNC|os.O_WRONLY, 0o644)
+		if err != nil {
+			return
+		}
+		c12Live = f
+	}
+	var sb strings.Builder
+	for i, v := range line {
+		if i > 0 {
+			sb.WriteByte(' ')
+		}
+		sb.WriteString(strconv.FormatInt(v, 10))
+	}
+	sb.WriteByte('\n')
+	c12Live.WriteString(sb.String())
+}
+
 func c12RunCase(t *testing.T, out *verifh.Out, script func(h *c12H)) {
 	var line []int64
 	var cov map[string]bool
@@ -948,6 +1097,7 @@ func c12RunCase(t *testing.T, out *verifh.Out, script func(h *c12H)) {
 	out.CoverN("steps", int64(nsteps))
 	out.Cover("cases")
 	out.Case(line)
+	c12LiveCase(line)
 }
 
 func TestVerifC12Nothing(t *testing.T) {}
@@ -965,10 +1115,15 @@ func TestVerifC12(t *testing.T) {
 	r := verifh.NewRand(verifh.Seed())
 	for i := 0; i < n; i++ {
 		cr := r.Fork()
-		kind := cr.Intn(7)
+		kind := cr.Intn(9)
 		steps := 4 + cr.Intn(22)
+		first := i < n/6
+		if first {
+			// first block: shared-worker dial scenarios without unroutable addresses
+			kind = 7 + cr.Intn(2)
+		}
 		c12RunCase(t, out, func(h *c12H) {
-			g := &c12Gen{h: h, r: cr, reaped: map[int]bool{}, nodial: map[int]bool{}}
+			g := &c12Gen{h: h, r: cr, reaped: map[int]bool{}, nodial: map[int]bool{}, noUndialable: first}
 			g.opening(kind)
 			for j := 0; j < steps; j++ {
 				g.randomOp()
@@ -1068,7 +1223,6 @@ func TestVerifC12Replay(t *testing.T) {
 	c12RunCase(t, out, func(h *c12H) { c12Replay(h, ops) })
 }
 
-var _ = strconv.Itoa
 
 // the swarm's Conn of scripted connection id (remembered once seen, so that a
 // direct Conn.NewStream can also be tried on a connection that is gone)
